@@ -115,6 +115,17 @@ def _rows_check(chk, name, out, ref, M, dim):
 
 
 # ------------------------------------------------------------------------------------------------
+def _dom_unchanged(chk, dom, siz, M):
+    """The DomainDefinition handed to an element operator is shared with every other module of the model (the assembly
+    modules read element_size when THEY are constructed): constructing / evaluating an operator leaves it as it was."""
+    es = np.asarray(dom.element_size)
+    chk.true("domain.element_size-shape", tuple(es.shape) == (3,), "domain-unchanged")
+    if tuple(es.shape) == (3,):
+        for a_, (got_, want_) in enumerate(zip(es, siz)):
+            chk.eq("domain.element_size[%d]-unchanged" % a_, got_, want_, "domain-unchanged")
+    chk.true("domain.sizes-unchanged", (dom.nelx, dom.nely, dom.nelz, dom.dim) == (M.nx, M.ny, M.nz, M.dim), "domain-unchanged")
+
+
 def sc_strain(V, P, cfg, chk=None):
     import pymoto as pym
     chk = chk or Chk(P)
@@ -124,6 +135,7 @@ def sc_strain(V, P, cfg, chk=None):
     m.response()
     out = np.asarray(m.sig_out[0].state)
     _rows_check(chk, "strain", out, ref_strain(G, M.dim), M, M.dim)
+    _dom_unchanged(chk, dom, siz, M)
     return dict(strain=out)
 
 
@@ -139,6 +151,7 @@ def sc_stress(V, P, cfg, chk=None):
     out = np.asarray(m.sig_out[0].state)
     lam, mu = lame(E, nu, M.dim, plane)
     _rows_check(chk, "stress", out, ref_stress(G, M.dim, lam, mu), M, M.dim)
+    _dom_unchanged(chk, dom, siz, M)
     return dict(stress=out)
 
 
@@ -153,10 +166,13 @@ def sc_energy(V, P, cfg, chk=None):
     plane = cfg.get("plane", "strain")
     x = V.reals("x", M.nel)
     prefer_moderate(V, list(x))
-    mK = pym.AssembleStiffness(pym.Signal("x", x), domain=dom, e_modulus=E, poisson_ratio=nu, plane=plane)
-    mK.response()
-    K = dense(mK.sig_out[0].state)
-    uKu = dot(u, matvec(K, u))
+    def _assemble():
+        mK = pym.AssembleStiffness(pym.Signal("x", x), domain=dom, e_modulus=E, poisson_ratio=nu, plane=plane)
+        mK.response()
+        return dense(mK.sig_out[0].state)
+    ops_first = cfg.get("order") == "operators-first"     # post-processing modules constructed BEFORE the assembly module
+    if not ops_first:
+        K = _assemble()
     m_eps = pym.Strain(pym.Signal("u", u), domain=dom)
     m_eps.response()
     eps = np.asarray(m_eps.sig_out[0].state)
@@ -166,6 +182,10 @@ def sc_energy(V, P, cfg, chk=None):
     m_nv = pym.Strain(pym.Signal("u", u), domain=dom, voigt=False)
     m_nv.response()
     eps_nv = np.asarray(m_nv.sig_out[0].state)
+    if ops_first:
+        K = _assemble()
+    uKu = dot(u, matvec(K, u))
+    _dom_unchanged(chk, dom, siz, M)
     lam, mu = lame(E, nu, M.dim, plane)
     dim = M.dim
     nrows = dim + len(voigt_pairs(dim))
@@ -359,6 +379,10 @@ def items(tier):
             ptag = pl if M.dim == 2 else "3d"
             out.append(dict(kind="stress", id="stress-%s-%s" % (tag, ptag), mesh=mesh, plane=pl))
             out.append(dict(kind="energy", id="energy-%s-%s" % (tag, ptag), mesh=mesh, plane=pl))
+            if M.nel <= 2:
+                # the same model with the element operators constructed before the assembly module (one shared domain object)
+                out.append(dict(kind="energy", id="energy-%s-%s-operators-first" % (tag, ptag), mesh=mesh, plane=pl,
+                                order="operators-first"))
             out.append(dict(kind="thermal", id="thermal-%s-%s" % (tag, ptag), mesh=mesh, plane=pl))
             if M.nel <= 2:
                 out.append(dict(kind="thermal", id="thermal-%s-%s-again" % (tag, ptag), mesh=mesh, plane=pl, again=True))
